@@ -3,9 +3,10 @@
    Inside the lattice model (Model/Lattice.v) a Runtime type is the opaque `TOther "Runtime"`, so nothing is proved there
    about Runtime types BELOW Array / Hash / Tuple / Variant / Optional.  This file models those constructors over the
    leaves Runtime (`rty`, with reflect as an oracle), Integer, String and Undef, following the same Go methods, in the same
-   order of tests, as Model/Lattice.v (`inst`) and Model/Infer.v (`infer_detailed`, `tkeq`, `udedup`, `mk_variant`) do:
+   order of tests, as Model/Lattice.v (`inst`, `asg`) and Model/Infer.v (`infer_detailed`, `tkeq`, `udedup`, `mk_variant`) do:
      rc_inst      IsInstance            arraytype.go / hashtype.go / tupletype.go / varianttype.go / optionaltype.go,
                                         RuntimeType.IsInstance (rt_inst) at the leaves
+     rc_asg       GuardedIsAssignable (types.go:112) + IsAssignable of the same receivers, RuntimeType.IsAssignable (rt_asg) at the leaves
      rc_detailed  px.DetailedValueType  arraytype.go:764 / hashtype.go:1326 privateDetailedType, WrapRuntime's type (rt_of)
      ckeq         equality of the hash keys of two types = what types.UniqueTypes (types.go:141) compares; the key of a
                   Runtime type carries the identity of its reflect.Type (fix 403c461), members of a Variant as a set
